@@ -113,6 +113,7 @@ type Script struct {
 	Steps       [nSteps]Action
 	ExitStatus  int
 	ByteWrites  bool // reply in 1-byte writes
+	Helper      bool // the plugin starts a daemon that inherits its stderr and outlives it
 	// generate reply
 	Files  []GenFile
 	GenErr bool // conforming: the generator returns an error
